@@ -3,9 +3,10 @@ CONSTANTS
   Clients = {"alice", "bob"}
   Streams = {"s1", "s2", "__cursors"}
   AuthFirst = TRUE
-  GroupAuthz = FALSE
+  GroupAuthz = TRUE
   Callers = {"alice", "bob"}
   DeepReload = TRUE
+  Canon = FALSE
   LenSet = {0, 1}
   PolicyClients = {"alice"}
 INVARIANTS TypeOK
